@@ -33,7 +33,7 @@ OverrideNames == <<"compose.override.yml", "compose.override.yaml", "docker-comp
 \* ------------------------------------------------------------------ the world
 \* w.fs[d]: regular files of directory d;  w.dotenv[d]: what d/.env defines ("none": no such file);
 \* w.os: the process environment (restricted to the variables below);  w.configs: paths given to NewProjectOptions
-Vars == {"COMPOSE_FILE", "COMPOSE_PATH_SEPARATOR", "COMPOSE_PROJECT_NAME", "VV"}
+Vars == {"COMPOSE_FILE", "COMPOSE_PATH_SEPARATOR", "COMPOSE_PROJECT_NAME", "COMPOSE_PROFILES", "VV"}
 SubDirs(d) == {BaseName[e] : e \in {e \in Dirs : Parent[e] = d}}
 IsFile(w, p) == p[2] \in w.fs[p[1]]
 Exists(w, p) == IsFile(w, p) \/ p[2] \in SubDirs(p[1])
@@ -60,6 +60,7 @@ DotEnvDefs(kind, d) ==
   CASE kind = "vv"   -> [k \in {"VV"} |-> "env" \o ToString(d)]
     [] kind = "file" -> [k \in {"VV", "COMPOSE_FILE"} |-> IF k = "VV" THEN "env" \o ToString(d) ELSE "x.yaml"]
     [] kind = "name" -> [k \in {"VV", "COMPOSE_PROJECT_NAME"} |-> IF k = "VV" THEN "env" \o ToString(d) ELSE "from-dotenv-" \o ToString(d)]
+    [] kind = "prof" -> [k \in {"VV", "COMPOSE_PROFILES"} |-> IF k = "VV" THEN "env" \o ToString(d) ELSE "dbg,y"]
     [] OTHER -> [k \in {} |-> ""]
 
 \* ------------------------------------------------------------------ environment maps
@@ -73,7 +74,9 @@ Under(a, b) == Over(b, a)
 VARIABLES w, o
 Error == [err |-> TRUE]
 IsErr(x) == "err" \in DOMAIN x
-New(configs) == [paths |-> configs, wd |-> 0, env |-> [k \in {} |-> ""], envfiles |-> <<>>, name |-> ""]
+\* prof: the profiles requested so far (the last request counts), or not set
+NoProf == [set |-> FALSE, v |-> <<>>]
+New(configs) == [paths |-> configs, wd |-> 0, env |-> [k \in {} |-> ""], envfiles |-> <<>>, name |-> "", prof |-> NoProf]
 
 \* GetWorkingDir
 WorkDir(x) == IF x.wd # 0 THEN x.wd ELSE IF x.paths # <<>> THEN x.paths[1][1] ELSE Cwd
@@ -109,6 +112,18 @@ WithDotEnv(x) ==
   IF \E i \in 1..Len(x.envfiles) : ~IsFile(w, x.envfiles[i]) THEN Error
   ELSE [x EXCEPT !.env = Under(x.env, ReadEnvFiles(x.envfiles, [k \in {} |-> ""]))]
 
+\* WithProfiles / WithDefaultProfiles: the latter falls back to COMPOSE_PROFILES of the environment built so far, split at commas,
+\* each entry without its surrounding blanks (an absent or empty variable gives the one entry "")
+RECURSIVE TrimL(_), TrimR(_)
+TrimL(t) == IF t # "" /\ Char(t, 1) = " " THEN TrimL(SubSeq(t, 2, Len(t))) ELSE t
+TrimR(t) == IF t # "" /\ Char(t, Len(t)) = " " THEN TrimR(SubSeq(t, 1, Len(t) - 1)) ELSE t
+WithProfiles(x, ps) == [x EXCEPT !.prof = [set |-> TRUE, v |-> ps]]
+WithDefaultProfiles(x, ps) ==
+  IF ps # <<>> THEN WithProfiles(x, ps)
+  ELSE LET parts == Split(Get(x.env, "COMPOSE_PROFILES"), ",") IN WithProfiles(x, [i \in 1..Len(parts) |-> TrimL(TrimR(parts[i]))])
+\* every compose file also defines a service that carries the profile "dbg": enabled iff that profile, or "*", is requested
+DbgEnabled(x) == \E i \in 1..Len(x.prof.v) : x.prof.v[i] \in {"dbg", "*"}
+
 \* ---- LoadProject: the observable project (or an error)
 \* every compose file defines one service named after its place, so the services of the project tell which files were merged
 Loaded(x) ==
@@ -118,7 +133,7 @@ Loaded(x) ==
            r == ResolveName([set |-> x.name # "", v |-> x.name], cpn, <<>>, BaseName[dir]) IN
        IF ~r.ok THEN Error
        ELSE [name |-> r.name, dir |-> dir, files |-> x.paths, vv |-> IF Get(x.env, "VV") = "" THEN "none" ELSE x.env["VV"],
-             hasvv |-> Has(x.env, "VV")]
+             hasvv |-> Has(x.env, "VV"), profiles |-> x.prof.v, dbg |-> DbgEnabled(x)]
 \* LoadModel: the same load, observed through the dictionary it returns (its name, and what ${VV:-none} interpolates to)
 LoadedModel(x) == LET r == Loaded(x) IN IF IsErr(r) THEN Error ELSE [name |-> r.name, vv |-> r.vv]
 =============================================================================
